@@ -12,6 +12,8 @@ pub mod worldx;
 pub mod zoo;
 pub mod prog;
 pub mod record;
+#[cfg(feature = "parallel")]
+pub mod rvx;
 pub mod sys;
 
 pub fn quiet_panics() {
